@@ -309,7 +309,7 @@ func runC03(c *Ctx) {
 						if fa, ok := in.(*ssa.FieldAddr); ok {
 							o, s := ownerOfFieldBase(fa.X.Type())
 							if o == H {
-								name := s.Field(fa.Field).Name()
+								name := fieldNameOf(s.Field(fa.Field))
 								// a read, not a store
 								for _, r := range *fa.Referrers() {
 									if _, isLoad := r.(*ssa.UnOp); isLoad {
@@ -367,7 +367,7 @@ func runC03(c *Ctx) {
 						if fa, ok := st.Addr.(*ssa.FieldAddr); ok {
 							o, s := ownerOfFieldBase(fa.X.Type())
 							if o == H {
-								got[s.Field(fa.Field).Name()] = T(st.Val).String()
+								got[fieldNameOf(s.Field(fa.Field))] = T(st.Val).String()
 							}
 						}
 					}
@@ -443,7 +443,7 @@ func runC03(c *Ctx) {
 				if o != "consensus.Executer" {
 					continue
 				}
-				name := s.Field(fa.Field).Name()
+				name := fieldNameOf(s.Field(fa.Field))
 				if name == "syncying" {
 					continue // sync state flag, not part of chain/consensus state
 				}
@@ -480,7 +480,7 @@ func runC03(c *Ctx) {
 				for _, in := range b.Instrs {
 					if fa, ok := in.(*ssa.FieldAddr); ok {
 						o, s := ownerOfFieldBase(fa.X.Type())
-						if o == "blockchain.Chain" && s.Field(fa.Field).Name() == "maxTransactionsLength" {
+						if o == "blockchain.Chain" && fieldNameOf(s.Field(fa.Field)) == "maxTransactionsLength" {
 							for _, r := range *fa.Referrers() {
 								if _, isLoad := r.(*ssa.UnOp); isLoad {
 									reads++
